@@ -24,7 +24,7 @@ Z3_TIMEOUT_MS = int(os.environ.get('PYVC_Z3_TIMEOUT_MS', '60000'))
 CVC5 = '/usr/bin/cvc5'
 
 
-def resolve_target(target):
+def resolve_target(target, native=False):
     mod, _, qn = target.partition(':')
     m = importlib.import_module(mod)
     o = m
@@ -56,6 +56,10 @@ def resolve_target(target):
     elif owner is not None:
         kind = 'method'
     if not isinstance(o, types.FunctionType):
+        if native and callable(o):
+            # run-time evaluation (bounded units, stand-ins, replays) calls whatever the class holds, e.g. a function
+            # wrapped by functools.lru_cache; obligations are only ever generated from plain functions
+            return o, owner, kind
         raise TypeError('%s is not a Python function' % target)
     return o, owner, kind
 
